@@ -1,18 +1,20 @@
 #!/bin/bash
-# confirm_seed.sh <worktree> <demo-build-and-run command (run inside worktree/seed_out)>
+# confirm_seed.sh <worktree> <patch.diff> <demo-build-and-run command (run inside worktree/seed_out)>
 # 1. with the change: demo must FAIL, existing suite must pass  2. without: demo must PASS.  Leaves the change applied.
-wt=$1; shift
+# (never uses git stash: refs/stash is shared by all worktrees of /repo)
+wt=$1; patch=$2; shift 2
 cd "$wt" || exit 2
 log=/tmp/confirm_$(basename $wt).log
 : > $log
+git checkout -- src; git apply "$patch" || { echo "patch does not apply" >> $log; exit 2; }
 echo "== diff" >> $log; git diff --stat -- src >> $log
 make -j4 >/dev/null 2>&1
 ( cd seed_out && bash -c "$*" ) >> $log 2>&1; echo "WITH-CHANGE demo exit=$?" >> $log
 make -k -j4 check > /tmp/confirm_$(basename $wt).check.log 2>&1
 grep -E "^# (TOTAL|PASS|FAIL|ERROR)" /tmp/confirm_$(basename $wt).check.log | tr '\n' ' ' >> $log; echo >> $log
-git stash -q
+git checkout -- src
 make -j4 >/dev/null 2>&1
 ( cd seed_out && bash -c "$*" ) >> $log 2>&1; echo "WITHOUT-CHANGE demo exit=$?" >> $log
-git stash pop -q
+git apply "$patch"
 make -j4 >/dev/null 2>&1
 echo "== done" >> $log
